@@ -102,7 +102,7 @@ def c03(chk):
         'resolved callee, called for encoders from exactly one site. C03.d: the same PEC rule on every response process_packet generates. The thorough tier also checks the PEC routine\'s '
         'structural parameters in its MIR and the Cargo.lock pin.')
     chk.rules_text = 'R-layout on the last written byte of every Ok leaf; who-may-call rule on smbus_pec::pec'
-    chk.assumptions = ['that smbus_pec::pec 1.0.1 computes CRC-8 poly 0x07 init 0 on every input is not decided (dependency arithmetic); only which routine is called, over which bytes, and (thorough) its structural parameters']
+    chk.assumptions = ['quick tier: smbus_pec::pec is an uninterpreted function of the bytes it is given (which routine, over which bytes); thorough tier: its per-byte step is shown equal to CRC-8/0x07 on all 256 values and its loop skeleton is read from MIR (C03.c, C03.e)']
     encs, rows = analysed(chk, 'C03.a')
     n = 0
     for enc, lf, know, length, ordered, why in rows:
